@@ -701,6 +701,19 @@ def compute_l2_key(
     l2_key = rk.l2_key
     reseed_l2 = l2 == 31 or rk.l1 != request_l1
 
+    # The L1 and L2 indexes are in the range 0..31 and keys can only be derived
+    # for an index at or before the one in the envelope. Anything else would
+    # walk the counters below past 0 and never terminate.
+    for idx in (l1, l2, request_l1, request_l2):
+        if idx < 0 or idx > 31:
+            raise ValueError(f"Invalid L1/L2 index {idx}, must be between 0 and 31")
+
+    if request_l1 > l1 or (request_l1 == l1 and request_l2 > l2):
+        raise ValueError(
+            f"Cannot derive the L2 key for L1 index {request_l1} and L2 index {request_l2} from the "
+            f"group key envelope with L1 index {l1} and L2 index {l2}"
+        )
+
     # MS-GKDI 2.2.4 Group key Envelope
     # If the value in the L2 index field is equal to 31, this contains the
     # L1 key with group key identifier (L0 index, L1 index, -1). In all
